@@ -339,6 +339,9 @@ pub fn gen_qname(src: &mut Src, o: &TreeOpts, attribute: bool) -> QName {
     } else {
         us[src.weighted(&w)]
     };
+    // (wide pool, round 15) the local name xmlns: an element may be called that in any namespace, an
+    // attribute only in a namespace (p:xmlns="v" is an ordinary attribute, not a declaration)
+    let local = if o.wide_prefixes && matches!(o.names, Names::Xml) && (!attribute || !ns.is_empty()) && src.ratio(1, 12) { "xmlns" } else { local };
     QName::new(ns, local)
 }
 
